@@ -428,6 +428,9 @@ func genProj(seed uint64, n int, tier string, emit func(string, []string, any)) 
 			np = 0
 		}
 		p, applied := genProject(cr, np)
+		if os.Getenv("VH_TYPES") != "" {
+			p, applied = genTypesProject(cr)
+		}
 		if validOnly {
 			p.Config.Enforce = false
 		}
